@@ -268,6 +268,9 @@ def refpeer_rekey(role, when, c1, c2, initiator):
             rp.comps_cs = rp.comps_sc = [comp(c2)]
             rp.send(rp.service_request())
             w.flush()
+            if when == 'pre-auth':
+                # RFC 4253 allows a re-exchange at any time after the first one, also before authentication is done
+                rekey_now()
             rp.send(rp.password_request('user', 'pw'))
             w.flush()
             if when == 'after-auth':
@@ -368,7 +371,9 @@ def b_jobs():
     jobs = []
     for role in ('server', 'client'):
         for initiator in ('refpeer', 'asyncssh'):
-            for when in ('after-auth', 'after-open', 'mid-data'):
+            for when in ('pre-auth', 'after-auth', 'after-open', 'mid-data'):
+                if when == 'pre-auth' and (role != 'server' or initiator != 'refpeer'):
+                    continue
                 for c1 in suites:
                     for c2 in suites:
                         jobs.append((role, when, c1, c2, initiator))
